@@ -70,14 +70,17 @@ def run(ctx):
         for x in rows:
             eff = [e for e in x.effects if e in (DEREG, REREG) or e.startswith('$m2 = ')]
             cs = set(c for c in x.conds if isinstance(c[1], bool))
+            batch = [i for i, e in enumerate(x.effects) if e.startswith('for _ in mio::Events::iter(')]
+            act = [i for i, e in enumerate(x.effects) if e in (DEREG, REREG)]
+            after_batch = bool(batch) and bool(act) and batch[0] < act[0] and ('value:is_done(self, state)', False) in cs
             if DEREG in eff:
                 n_de += 1
-                if eff != [DEREG, '$m2 = false'] or not {LISTEN, ABOVE} <= cs:
-                    bad.append(('deregister', x.cond_strs(), eff))
+                if eff != [DEREG, '$m2 = false'] or not {LISTEN, ABOVE} <= cs or not after_batch:
+                    bad.append(('deregister', x.cond_strs(), eff, 'after the event batch: %s' % after_batch))
             elif REREG in eff:
                 n_re += 1
-                if eff != [REREG, '$m2 = true'] or not {NOT_LISTEN, NOT_ABOVE_LOW} <= cs:
-                    bad.append(('reregister', x.cond_strs(), eff))
+                if eff != [REREG, '$m2 = true'] or not {NOT_LISTEN, NOT_ABOVE_LOW} <= cs or not after_batch:
+                    bad.append(('reregister', x.cond_strs(), eff, 'after the event batch: %s' % after_batch))
             else:
                 if eff:
                     bad.append(('flag-without-action', x.cond_strs(), eff))
